@@ -6,6 +6,9 @@ observed output, and answers one line per record:
   `KNOWN <property> <signature> …` | `BADREC <kind>`.
 -/
 import Driver.Cross
+import Driver.ParseStage
+import Driver.RenderStage
+import Driver.TreeDet
 open Pm Drv
 
 def handle (line : String) : String :=
@@ -35,6 +38,11 @@ def handle (line : String) : String :=
       | "PGO" => some handlePGO
       | "PGR" => some handlePGR
       | "TRG" => some handleTRG
+      | "TRGH" => some handleTRGH
+      | "PS" => some handlePS
+      | "PM" => some handlePM
+      | "PH" => some handlePH
+      | "RND" => some handleRND
       | "PGD" => some handlePGD
       | "HUNT" => some (fun ts => some (s!"ok hunt cases={ts.getD 1 "?"} suspicious={ts.getD 2 "?"}", []))
       | "E2E" => (match ts.head? with
